@@ -55,6 +55,7 @@ func RunOn(repoDir, tier, id string) (*core.Run, error) {
 		run.Undecided(id+".load", "load", "-", "%v", err)
 		return run, nil
 	}
+	curProg = p
 	func() {
 		defer func() {
 			if x := recover(); x != nil {
